@@ -114,6 +114,9 @@ enum Edit {
 
 impl Sub for StrictDecode {
     type Case = DecodeCase;
+    fn restrictable(&self) -> bool {
+        true
+    }
     fn name(&self) -> &'static str {
         "strict_decode"
     }
